@@ -605,7 +605,10 @@ reg_node("C17", "Theorems: leader stickiness (full: a non-transfer vote request 
          "it was); mechanisms of progress: time-out starts an election, an up-to-date candidate gets every allowed vote, a quorum of grants wins, "
          "rejections strictly lower nextIndex down to matchIndex+1, success raises the match index, a single voter commits alone, quorum loss steps "
          "down; on the abstract protocol (Props/C17_abs.v): from EVERY reachable state any majority of voters can elect one of its members "
-         "and commit a new entry on all of them (explicit witness run). PARTIAL: real time / bounded number of election time-outs is outside the model.", [])
+         "and commit a new entry on all of them (explicit witness run); the same under membership changes, crashes and snapshots (Props/C17_cfg.v on "
+         "Abs/CfgRaft.v): a voter of its own latest configuration whose log is at least as up to date as those of a majority of that configuration "
+         "can be elected by it and commit a new client entry, from every reachable state. PARTIAL: real time / bounded number of election time-outs "
+         "is outside the model.", [], extra_props=["C17_cfg.v"])
 
 
 reg_node("C11", "Theorems: an election is started only by a voter of the node's own latest configuration (time-out aborts, timeout-now is refused "
